@@ -465,7 +465,9 @@ def _control_history(pre, pays):
     busy = stuck = armed = unhandled = a_trigger = tainted = False
     for r in pre:
         e = r["e"]
-        if e == "dp_rx" and r["setup"] and r["len"] == 8 and not r.get("cor"):
+        if e == "dp_rx" and r["setup"] and (r["len"] != 8 or r.get("cor")):
+            a_trigger = armed or unhandled          # (the end of a Setup-flagged packet the decoder does not report)
+        elif e == "dp_rx" and r["setup"]:
             b = pays[r["p"] - 1]["b"]
             a_trigger = armed or unhandled
             if busy:
@@ -515,7 +517,8 @@ def _cause(trace, k, status, pays):
         return "last_beat_withdrawn_while_tx_not_ready"
     stuck, a_trigger = _control_history(pre, pays)
     last_host = next((r for r in reversed(pre) if r["e"] in ("dp_rx", "tp", "itp")), {})
-    if a_trigger and status == "tp_subtype" and bad.get("e") == "dhp" and last_host.get("e") == "dp_rx":
+    if a_trigger and status in ("tp_subtype", "tp_not_owed") and bad.get("e") == "dhp" and last_host.get("e") == "dp_rx" \
+            and last_host.get("setup"):
         return "setup_answered_with_stall"
     if stuck:
         return "setup_while_standard_handler_busy"
